@@ -307,3 +307,12 @@ def len_nonneg(llen):
   """Heap well-formedness: every list length is non-negative."""
   r = z3.Int('ln_r')
   return _forall([r], llen[r] >= 0, patterns=[llen[r]])
+
+
+def tuples_immutable(old_llen, old_lelt, new_llen, new_lelt, alloc_before, cls_fn):
+  """Tuple objects never change: length and elements of every tuple that existed are kept."""
+  r = z3.Int('ti_r')
+  tup = z3.Or([cls_fn(r) == z3.IntVal(c) for c in subclasses('tuple')])
+  return z3.And(
+      _forall([r], z3.Implies(z3.And(r < alloc_before, tup), new_llen[r] == old_llen[r]), patterns=[new_llen[r]]),
+      _forall([r], z3.Implies(z3.And(r < alloc_before, tup), new_lelt[r] == old_lelt[r]), patterns=[new_lelt[r]]))
